@@ -49,7 +49,9 @@ class Conjugate: # TODO: Subclass from Sampler once updated
 
     def _calc_m_for_Gaussians(self, b):
         """ Helper method to calculate m parameter for Gaussian-Gamma conjugate pair. """
-        if isinstance(self.target.likelihood.distribution, (Gaussian, GMRF)):
+        if isinstance(self.target.likelihood.distribution, GMRF):
+            return self.target.likelihood.distribution._rank # the precision enters the density with this power (dim-1 for Neumann and periodic boundaries)
+        elif isinstance(self.target.likelihood.distribution, Gaussian):
             return len(b)
         elif isinstance(self.target.likelihood.distribution, (RegularizedGaussian, RegularizedGMRF)):
             return np.count_nonzero(b) # See 
